@@ -13,3 +13,15 @@ PROP = {
         "bridge lemma for linktestFailureStep carries the range hypothesis fails+1 < 2^63",
     ],
 }
+
+
+def custom(run, tier):
+    """End-to-end timelines on a real hsmsss connection (implementation-level oracle only)."""
+    import vlib
+    ok, log = vlib.build_harness("c19e2e")
+    run.oblige("e2e harness (c19e2e) builds", ok, log)
+    if not ok:
+        return
+    rc, summary, out = vlib.run_harness("c19e2e", ["-seed", run.seed, "-tier", tier], timeout=900)
+    run.oblige("e2e timelines complete", rc == 0 and summary is not None, out[-2000:])
+    run.absorb(summary)
